@@ -94,8 +94,12 @@ def gen_inner(rng, tag, cfg):
                                  "writes": [{"fd": 1, "hex": (own + "\n").encode().hex()}]})], "bhead"
     if k < 83:
         return [{"kind": "builtin", "text": "alias"}], "opaque"
-    if k < 92:
+    if k < 90:
         return [{"kind": "notfound", "text": "no_such_cmd_%d" % rng.below(99)}], "empty"
+    if k < 92:
+        # a background command cannot be captured: a diagnostic, an empty replacement, and the program is not started
+        # (modelled as a stage that runs inside the shell: no fork, no pipes)
+        return [{"kind": "builtin", "text": "pup %sbg &" % tag}], "empty"
     return [{"kind": "func", "text": "myfn"}], "func"
 
 
